@@ -41,6 +41,7 @@ pub fn s_nackbuf(_run: &mut Run, a: &[&str]) -> (String, Fails) {
     let egress = std::sync::Arc::new(Egress(parking_lot::Mutex::new(vec![])));
     tr.add_observer(egress.clone());
     let mut rtx_base: Option<u16> = None;
+    let (mut monotone, mut last_t) = (true, 0u64);
     for op in &a[1..] {
         let g: Vec<&str> = op.split(':').collect();
         match g[0] {
@@ -105,6 +106,10 @@ pub fn s_nackbuf(_run: &mut Run, a: &[&str]) -> (String, Fails) {
             }
             _ => {
                 let (t, seqs): (u64, Vec<u16>) = (g[1].parse().unwrap(), lst(g[2]));
+                // the cooldown clauses below are stated for a clock that does not run backwards (with a backwards step the
+                // bounded cooldown map may already have dropped an entry; the model covers that case)
+                if t < last_t { monotone = false; }
+                last_t = t;
                 let got = h.packets_for_nack(&seqs, base + Duration::from_millis(t));
                 let mut seen = vec![];
                 for p in &got {
@@ -116,8 +121,8 @@ pub fn s_nackbuf(_run: &mut Run, a: &[&str]) -> (String, Fails) {
                 }
                 for s in &seqs {
                     let cooling = accepted.get(s).map_or(false, |l| t.saturating_sub(*l) < 25);
-                    if latest.contains_key(s) && !cooling && !seen.contains(s) { f.push(("nackbuf:retained-packet-not-resent".into(), format!("{s}"))); }
-                    if cooling && seen.contains(s) { f.push(("nackbuf:cooldown-ignored".into(), format!("{s}"))); }
+                    if monotone && latest.contains_key(s) && !cooling && !seen.contains(s) { f.push(("nackbuf:retained-packet-not-resent".into(), format!("{s}"))); }
+                    if monotone && cooling && seen.contains(s) { f.push(("nackbuf:cooldown-ignored".into(), format!("{s}"))); }
                 }
                 for s in &seen { accepted.insert(*s, t); }
                 out.push(format!("g{}", if got.is_empty() { "-".to_string() } else {
